@@ -125,12 +125,13 @@ def code_identities(ctx):
                 ctx.case(('code', name, nth, t, str(d['eneT0'])), nontrivial=bool(len(set(np.round(d['eneT0'], 6))) > 1 or len(calc.sitelist) > 1),
                          sample=dict(calculator=name, nthermo=nth, max_Lsv_plus_L0vv=float(np.abs(Lsv + L0vv).max()), max_L1vv=float(np.abs(L1vv).max())))
                 ctx.count('code:%s:N%d' % (name, nth))
+                ostag = 'originstates' if len(calc.OSindices) > 0 else 'no-originstates'
                 if np.abs(Lsv + L0vv).max() > tol:
-                    ctx.violation('tracer:Lsv:%s' % name, 'tracer: Lsv + L0vv = %.3g (tol %.3g) on %s' % (np.abs(Lsv + L0vv).max(), tol, name), rep)
+                    ctx.violation('tracer:Lsv:%s:%s' % (ostag, name), 'tracer: Lsv + L0vv = %.3g (tol %.3g) on %s' % (np.abs(Lsv + L0vv).max(), tol, name), rep)
                 if np.abs(L1vv).max() > tol:
-                    ctx.violation('tracer:L1vv:%s' % name, 'tracer: vacancy correction L1vv = %.3g (tol %.3g) on %s' % (np.abs(L1vv).max(), tol, name), rep)
+                    ctx.violation('tracer:L1vv:%s:%s' % (ostag, name), 'tracer: vacancy correction L1vv = %.3g (tol %.3g) on %s' % (np.abs(L1vv).max(), tol, name), rep)
                 if np.linalg.eigvalsh(0.5 * (Lss + Lss.T)).min() < -tol or np.linalg.eigvalsh(0.5 * ((L0vv - Lss) + (L0vv - Lss).T)).min() < -tol:
-                    ctx.violation('tracer:Lss-bounds:%s' % name, 'tracer: Lss not between 0 and L0vv on %s' % name, rep)
+                    ctx.violation('tracer:Lss-bounds:%s:%s' % (ostag, name), 'tracer: Lss not between 0 and L0vv on %s' % name, rep)
 
 
 def run(ctx):
